@@ -24,7 +24,8 @@ RULE = ('Direct calls of the long-only sizer on a real broker: 1-6 assets from a
         'positive weights, fee>0 or buffer>0, and some alloc/p with fractional part >= 0.5 (floor != round), '
         'or a rejected invalid input.'
         " Round-4/5 reach: the broker's fee model replaced, cash withdrawn and the sizer's cash_buffer_percentage re-set between calls on one sizer; QuantTradingSystem-built sizers given both sizing keywords; exact clause (quantity == reference sizing in exact rationals unless a quotient is within 1e-12 of a whole number) incl. allocations that are exact multiples of the price; csv part: files in any row order with missing cells, a first bar without an Open, a source quoting a spread, a first-listed source whose history starts later."
-        " Round-10 reach: `broker_other_feed` (the broker's own handler quotes x1.75; the sizer and the trading system are given another) in a third of the random cases; csv part: the first-listed, later-starting source may raise instead of answering NaN before its coverage, and the handler is asked 400, 30, 3 and 1 days earlier.")
+        " Round-10 reach: `broker_other_feed` (the broker's own handler quotes x1.75; the sizer and the trading system are given another) in a third of the random cases; csv part: the first-listed, later-starting source may raise instead of answering NaN before its coverage, and the handler is asked 400, 30, 3 and 1 days earlier."
+        " Round-11 reach (csv part): `scan_dir` - the source lists the directory itself, which also holds a gzip archive copy with other prices, a backup and a text file; sizing instants a fraction of a second either side of the whole second.")
 ASSUMPTIONS = [
     'fee rates with commission + tax <= 1 (a fee above 100% has no meaningful budget)',
     'weight sums either <= 1e-9 (left unscaled by the code, only upper bounds asserted) or >= 5e-5',
@@ -327,7 +328,7 @@ def run_csv(case, long_only=True):
     from checks.c06_pit_data import lookup, observations
     q = load()
     clear_caches()
-    t = cal.ts6(case['t'])
+    t = cal.ts6(case['t']) + pd.Timedelta(microseconds=case.get('t_us', 0))       # (a fraction of a second either side)
     syms = case['symbols']
     order = case.get('file_order', 'sorted')
     files = syms
@@ -344,8 +345,13 @@ def run_csv(case, long_only=True):
             files[s] = rr
     spread = case.get('spread') or 0.0
     late_quotes = False
-    with market.csv_dir(files) as path:
-        ds = q.CSVDailyBarDataSource(path, q.Equity, adjust_prices=case['adjust'], csv_symbols=list(syms))
+    with market.csv_dir(files, junk=bool(case.get('scan_dir'))) as path:
+        if case.get('scan_dir'):
+            # the source lists the directory itself; the directory also holds files that are not bar files (a compressed
+            # archive copy with other prices, a backup, notes)
+            ds = q.CSVDailyBarDataSource(path, q.Equity, adjust_prices=case['adjust'])
+        else:
+            ds = q.CSVDailyBarDataSource(path, q.Equity, adjust_prices=case['adjust'], csv_symbols=list(syms))
         if spread:
             # a source quoting ask above bid: the sizers buy at the ask
             ds = kit.SpreadSource(ds, spread)
@@ -465,6 +471,10 @@ def run_csv(case, long_only=True):
                         a, out[a]['quantity'], price[a], float(share)))
     if order != 'sorted':
         cls.append('files_' + order)
+    if case.get('scan_dir'):
+        cls.append('source_lists_a_directory_holding_other_files_too')
+    if case.get('t_us'):
+        cls.append('asked_a_fraction_of_a_second_off_the_whole_second')
     if case.get('late_source_first'):
         cls.append('first_listed_source_starts_later')
         if case.get('late_source_raises'):
@@ -527,6 +537,8 @@ def csv_cases(draw, long_only=True):
         t = [d.year, d.month, d.day, 21, 0, 0]
     w = {s: (draw(st.sampled_from([0.0, 0.5, 1.0, 0.25])) * (1 if long_only or draw(st.booleans()) else -1)) for s in names}
     return {'file_order': draw(st.sampled_from(['sorted', 'reversed', 'shuffled'])),
+            'scan_dir': draw(st.sampled_from([False, False, True])),
+            't_us': draw(st.sampled_from([0, 0, -400000, 600000, -1, 1])),
             'spread': draw(st.sampled_from([0.0, 0.0, 0.02, 0.3])),
             'late_source_first': draw(st.sampled_from([False, False, True])),
             'late_shift': draw(st.sampled_from([91, 4, 2])), 'late_source_raises': draw(st.booleans()),
